@@ -18,6 +18,8 @@ RULE = ('Hypothesis draws order (1..5), per-mode row/column sizes (1..4, size 1 
         'of the operation. A case is non-trivial when it has order 1, a size-1 mode, a rank-1 interior bond, complex '
         'or mixed dtype, over-parameterised ranks or differing operand ranks; distinct = distinct canonical JSON of '
         'the case.')
+RULE += (' ' + 'Added classes (rounds 6-9): residual_error with a left-hand side that (nearly) solves the system (relative residual 1e-9 ... 0) and on operands of size 1e-14 ... 1e8; operands looked at again after every operation.')
+
 ASSUMPTIONS = [
     'oracle: vt/dense.py contraction (numpy.tensordot chain) and NumPy/LAPACK dense linear algebra are trusted',
     'boundary ranks are 1 for full/matricize/element (documented precondition)',
